@@ -5095,6 +5095,23 @@ class PyCdlib:
         if iso_path is None and joliet_path is None and udf_path is None:
             raise pycdlibexception.PyCdlibInvalidInput('Either iso_path or joliet_path must be passed')
 
+        # The namespaces are dealt with one after the other below; what the
+        # later ones would refuse is refused now, while nothing has changed.
+        if joliet_path is not None and iso_path is not None:
+            joliet_child = self._find_joliet_record(self._normalize_joliet_path(joliet_path))
+            if not joliet_child.is_dir():
+                raise pycdlibexception.PyCdlibInvalidInput('Cannot remove a file with rm_directory (try rm_file instead)')
+            if len(joliet_child.children) > 2:
+                raise pycdlibexception.PyCdlibInvalidInput('Directory must be empty to use rm_directory')
+        if udf_path is not None and (iso_path is not None or joliet_path is not None):
+            if self.udf_root is None:
+                raise pycdlibexception.PyCdlibInvalidInput('Can only specify a UDF path for a UDF ISO')
+            (udf_ident_unused, udf_child) = self._find_udf_record(utils.normpath(udf_path))
+            if udf_child is not None and not udf_child.is_dir():
+                raise pycdlibexception.PyCdlibInvalidInput('Cannot remove a file with rm_directory (try rm_file instead)')
+            if udf_child is not None and len(udf_child.fi_descs) > 1:
+                raise pycdlibexception.PyCdlibInvalidInput('Directory must be empty to use rm_directory')
+
         num_bytes_to_remove = 0
 
         if iso_path is not None:
